@@ -61,6 +61,8 @@ enum Op {
     RemoveSigner { id: u32, s: u8 },
     AddPolicy { id: u32, p: u8 },
     RemovePolicy { id: u32, p: u8 },
+    /// seeds only: let ledgers pass (rules may expire; the registry must keep listing them)
+    Advance(u32),
 }
 
 #[derive(Clone, Debug, PartialEq, Eq, Hash)]
@@ -105,6 +107,8 @@ struct Acct {
     edit_policies: Vec<u8>,
     /// at most this many live rules are addressed by per-rule operations (first / middle / last)
     max_targets: usize,
+    /// `add_context_rule` is a probe only (checked with every oracle, never extends the frontier)
+    leaf_adds: bool,
 }
 
 struct AInst {
@@ -166,6 +170,10 @@ impl Acct {
                 call_mocked(e, &i.c, "add_policy", (*id, i.policies[*p as usize].clone(), param).into_val(e))
             }
             Op::RemovePolicy { id, p } => call_mocked(e, &i.c, "remove_policy", (*id, i.policies[*p as usize].clone()).into_val(e)),
+            Op::Advance(k) => {
+                envx::advance(e, *k);
+                Ok(().into_val(e))
+            }
         }
     }
 
@@ -200,6 +208,7 @@ impl Acct {
                 Ok(())
             }
             Op::RemoveRule(id) | Op::Rename { id, .. } | Op::SetValid { id, .. } => absent(id).map(|_| ()),
+            Op::Advance(_) => Ok(()),
             Op::AddSigner { id, s } => {
                 let r = absent(id)?;
                 if r.signers.contains(s) {
@@ -333,6 +342,7 @@ impl Acct {
                     r.policies.remove(p);
                 }
             }
+            Op::Advance(_) => {}
         }
     }
 
@@ -479,6 +489,9 @@ impl World for Acct {
             for valid in &self.valids {
                 v.push(Op::SetValid { id: *id, valid: *valid });
             }
+        }
+        // signer / policy edits: live rules and the id that never existed
+        for id in live.iter().chain(absent.last()) {
             for s in &self.edit_signers {
                 v.push(Op::AddSigner { id: *id, s: *s });
                 v.push(Op::RemoveSigner { id: *id, s: *s });
@@ -501,12 +514,17 @@ impl World for Acct {
             Op::RemoveSigner { .. } => "acct.remove_signer",
             Op::AddPolicy { .. } => "acct.add_policy",
             Op::RemovePolicy { .. } => "acct.remove_policy",
+            Op::Advance(_) => "acct.advance",
         }
         .into()
     }
 
     fn apply(&self, i: &mut AInst, op: &Op) {
         let _ = self.exec(i, op);
+    }
+
+    fn leaf_only(&self, op: &Op) -> bool {
+        self.leaf_adds && matches!(op, Op::AddRule { .. })
     }
 
     fn step(&self, i: &mut AInst, m: &mut AModel, op: &Op, cx: &mut StepCtx<Self>) -> Result<bool, Violation> {
@@ -582,11 +600,24 @@ impl World for Acct {
     }
 }
 
+/// TEMPORARY (tuning): depth override through the environment.
+fn dpt(world: &str, d: usize) -> usize {
+    std::env::var(format!("C20A_{}", world.replace('-', "_"))).ok().and_then(|x| x.parse().ok()).unwrap_or(d)
+}
+
+fn add(ctx: u8, signers: &[u8], policies: &[u8]) -> Op {
+    Op::AddRule { ctx, signers: signers.to_vec(), policies: policies.to_vec(), valid: None }
+}
+
 fn acct_worlds(tier: Tier) -> Vec<(Acct, Bounds)> {
     let th = tier == Tier::Thorough;
+    let wall = tier.pick(40, 420);
+    let later = Some(START + 100);
     let mut out = vec![];
 
-    // (a) rule life cycle: ids, count, per-type lists, fingerprints across context types
+    // (a) rule life cycle: ids, count, per-type lists, names / expiry, fingerprints across
+    //     context types. Third seed: the constructor's rule has expired (the getters list
+    //     expired rules too).
     {
         let mut adds: Vec<(u8, Vec<u8>, Vec<u8>)> = vec![
             (0, vec![0], vec![]),     // equals the constructor's rule while that one lives
@@ -599,28 +630,34 @@ fn acct_worlds(tier: Tier) -> Vec<(Acct, Bounds)> {
             (0, vec![1, 1], vec![]),  // duplicate signer in the call
         ];
         if th {
-            adds.extend([(2, vec![0], vec![]), (1, vec![0, 1], vec![]), (1, vec![], vec![1, 0])]);
+            adds.extend([(2, vec![0], vec![]), (1, vec![], vec![1, 0])]);
         }
         out.push((
             Acct {
                 name: "acct-rule-lifecycle",
                 ns: 3,
                 np: 2,
-                seeds: vec![("constructor-rule", vec![]), ("emptied", vec![Op::RemoveRule(0)])],
+                seeds: vec![
+                    ("constructor-rule", vec![]),
+                    ("emptied", vec![Op::RemoveRule(0)]),
+                    ("constructor-rule-expired", vec![Op::SetValid { id: 0, valid: Some(START + 5) }, Op::Advance(20)]),
+                ],
                 adds,
                 remove_rule: true,
                 renames: if th { vec![1, 2] } else { vec![2] },
-                valids: if th { vec![Some(START + 10), None] } else { vec![Some(START + 10)] },
+                valids: if th { vec![later, None] } else { vec![later] },
                 edit_signers: vec![],
                 edit_policies: vec![],
                 max_targets: 8,
+                leaf_adds: false,
             },
-            Bounds::new(tier.pick(5, 6), tier.pick(15, 200)),
+            Bounds::new(dpt("acct-rule-lifecycle", tier.pick(5, 6)), wall),
         ));
     }
 
-    // (b) signer / policy edits of two or three rules that can collide (same context type) or
-    //     must not collide (different context types)
+    // (b) signer / policy edits of rules that can collide (same context type) or must not
+    //     collide (different context types); `add_context_rule` probes which fingerprints are
+    //     taken / free after every edit (old one released, new one claimed)
     {
         out.push((
             Acct {
@@ -628,10 +665,30 @@ fn acct_worlds(tier: Tier) -> Vec<(Acct, Bounds)> {
                 ns: 3,
                 np: 2,
                 seeds: vec![
-                    ("two-default-rules", vec![Op::AddRule { ctx: 0, signers: vec![1], policies: vec![], valid: None }]),
-                    ("default-and-call-rule", vec![Op::AddRule { ctx: 1, signers: vec![1], policies: vec![], valid: None }]),
-                    ("policy-only-rule", vec![Op::AddRule { ctx: 0, signers: vec![], policies: vec![0], valid: None }]),
+                    ("two-default-rules", vec![add(0, &[1], &[])]),
+                    ("default-and-call-rule", vec![add(1, &[1], &[])]),
+                    ("policy-only-rule", vec![add(0, &[], &[0])]),
                 ],
+                adds: vec![(0, vec![0], vec![]), (0, vec![1, 0], vec![]), (0, vec![0], vec![1]), (1, vec![0], vec![])],
+                remove_rule: true,
+                renames: vec![],
+                valids: vec![],
+                edit_signers: vec![0, 1, 2],
+                edit_policies: vec![0, 1],
+                max_targets: 3,
+                leaf_adds: true,
+            },
+            Bounds::new(dpt("acct-signer-policy-edits", tier.pick(5, 7)), wall),
+        ));
+    }
+    // (b') thorough only: the same with rules added in between (new ids, third rule)
+    if th {
+        out.push((
+            Acct {
+                name: "acct-signer-policy-edits-growing",
+                ns: 3,
+                np: 2,
+                seeds: vec![("two-default-rules", vec![add(0, &[1], &[])])],
                 adds: vec![(0, vec![0], vec![]), (0, vec![1, 0], vec![]), (0, vec![0], vec![1])],
                 remove_rule: true,
                 renames: vec![],
@@ -639,36 +696,37 @@ fn acct_worlds(tier: Tier) -> Vec<(Acct, Bounds)> {
                 edit_signers: vec![0, 1, 2],
                 edit_policies: vec![0, 1],
                 max_targets: 3,
+                leaf_adds: false,
             },
-            Bounds::new(tier.pick(4, 6), tier.pick(15, 200)),
+            Bounds::new(dpt("acct-signer-policy-edits-growing", 5), wall),
         ));
     }
 
     // (c) MAX_CONTEXT_RULES: 14 rules stored
     {
         let mut setup = vec![];
-        let combos: [(u8, Vec<u8>); 13] = [
-            (0, vec![1]),
-            (0, vec![2]),
-            (0, vec![0, 1]),
-            (0, vec![0, 2]),
-            (1, vec![0]),
-            (1, vec![1]),
-            (1, vec![2]),
-            (1, vec![0, 1]),
-            (1, vec![0, 2]),
-            (2, vec![0]),
-            (2, vec![1]),
-            (2, vec![2]),
-            (2, vec![0, 1]),
+        let combos: [(u8, &[u8]); 13] = [
+            (0, &[1]),
+            (0, &[2]),
+            (0, &[0, 1]),
+            (0, &[0, 2]),
+            (1, &[0]),
+            (1, &[1]),
+            (1, &[2]),
+            (1, &[0, 1]),
+            (1, &[0, 2]),
+            (2, &[0]),
+            (2, &[1]),
+            (2, &[2]),
+            (2, &[0, 1]),
         ];
         for (ctx, s) in combos {
-            setup.push(Op::AddRule { ctx, signers: s, policies: vec![], valid: None });
+            setup.push(add(ctx, s, &[]));
         }
-        // second seed: the same 14 rules reached through 15 rules and a removal (count was at the
-        // limit before)
+        // second seed: 14 rules reached through 15 rules and a removal (the count had been at the
+        // limit before; ids 0..=14 issued, id 7 free again - it must not be handed out)
         let mut setup2 = setup.clone();
-        setup2.push(Op::AddRule { ctx: 2, signers: vec![0, 2], policies: vec![], valid: None });
+        setup2.push(add(2, &[0, 2], &[]));
         setup2.push(Op::RemoveRule(7));
         out.push((
             Acct {
@@ -683,8 +741,9 @@ fn acct_worlds(tier: Tier) -> Vec<(Acct, Bounds)> {
                 edit_signers: vec![],
                 edit_policies: vec![],
                 max_targets: 3,
+                leaf_adds: false,
             },
-            Bounds::new(tier.pick(3, 4), tier.pick(10, 60)),
+            Bounds::new(dpt("acct-limit-rules", tier.pick(3, 4)), wall),
         ));
     }
 
@@ -698,8 +757,8 @@ fn acct_worlds(tier: Tier) -> Vec<(Acct, Bounds)> {
                 np: 1,
                 seeds: vec![("rule0-with-14-signers", setup)],
                 adds: vec![
-                    (1, (0..15u8).collect(), vec![]),     // 15 signers at once: admissible
-                    (2, (0..16u8).collect(), vec![]),     // 16: one too many
+                    (1, (0..15u8).collect(), vec![]),        // 15 signers at once: admissible
+                    (2, (0..16u8).collect(), vec![]),        // 16: one too many
                     (2, (1..16u8).rev().collect(), vec![0]), // 15 again, other type, with a policy
                 ],
                 remove_rule: false,
@@ -708,8 +767,9 @@ fn acct_worlds(tier: Tier) -> Vec<(Acct, Bounds)> {
                 edit_signers: vec![0, 13, 14, 15, 16],
                 edit_policies: vec![],
                 max_targets: 2,
+                leaf_adds: false,
             },
-            Bounds::new(tier.pick(3, 4), tier.pick(10, 60)),
+            Bounds::new(dpt("acct-limit-signers", tier.pick(3, 4)), wall),
         ));
     }
 
@@ -733,8 +793,9 @@ fn acct_worlds(tier: Tier) -> Vec<(Acct, Bounds)> {
                 edit_signers: vec![],
                 edit_policies: vec![0, 3, 4, 5, 6],
                 max_targets: 2,
+                leaf_adds: false,
             },
-            Bounds::new(tier.pick(3, 4), tier.pick(10, 60)),
+            Bounds::new(dpt("acct-limit-policies", tier.pick(3, 4)), wall),
         ));
     }
     out
@@ -772,8 +833,12 @@ struct Comp {
     nm: usize,
     /// (seed name, registrations applied at construction)
     seeds: Vec<(String, Vec<(u8, u8)>)>,
-    /// (hook, module) pairs operated on
+    /// (hook, module) pairs operated on; in `limit` mode hook 0 stands for the seeded (nearly
+    /// full) hook and hook 1 for the one after it (empty)
     alphabet: Vec<(u8, u8)>,
+    limit: bool,
+    /// modules asked for with `is_module_registered` (the list getter covers all of them)
+    query: Vec<u8>,
 }
 
 struct CInst {
@@ -804,7 +869,7 @@ impl Comp {
             }
             let want = &m.reg[h as usize];
             ensure!(got == *want, "getter-vs-model", "get_modules_for_hook({:?}) = {got:?}, model {want:?}", hook(h));
-            for k in 0..self.nm as u8 {
+            for k in self.query.iter().copied() {
                 let bv = view(e, &i.c, "is_module_registered", (hook(h), i.mods[k as usize].clone()).into_val(e))
                     .map_err(|x| viol("getter", format!("is_module_registered: {x:?}")))?;
                 let b = bool::try_from_val(e, &bv).map_err(|_| viol("getter", "is_module_registered: not a bool".into()))?;
@@ -844,13 +909,16 @@ impl World for Comp {
         (i, m)
     }
 
-    fn ops(&self, _i: &CInst, _m: &CModel, _depth: usize) -> Vec<COp> {
+    fn ops(&self, _i: &CInst, m: &CModel, _depth: usize) -> Vec<COp> {
+        // limit mode: the fullest hook is the seeded one (18..=20 modules at any explored depth)
+        let base = if self.limit { (0..HOOKS as u8).max_by_key(|h| (m.reg[*h as usize].len(), HOOKS as u8 - *h)).unwrap_or(0) } else { 0 };
+        let hk = |h: u8| (base + h) % HOOKS as u8;
         let mut v = vec![];
         for (h, k) in &self.alphabet {
-            v.push(COp::Add { hook: *h, m: *k });
+            v.push(COp::Add { hook: hk(*h), m: *k });
         }
         for (h, k) in &self.alphabet {
-            v.push(COp::Remove { hook: *h, m: *k });
+            v.push(COp::Remove { hook: hk(*h), m: *k });
         }
         v
     }
@@ -937,8 +1005,9 @@ impl World for Comp {
 
 fn comp_worlds(tier: Tier) -> Vec<(Comp, Bounds)> {
     let th = tier == Tier::Thorough;
+    let wall = tier.pick(40, 420);
     let mut out = vec![];
-    // (a) every hook x {M1, M2, M3} from the empty registry
+    // (a) every hook x {M1, M2, M3} from the empty registry (M4 is only queried)
     {
         let mut alphabet = vec![];
         for h in 0..HOOKS as u8 {
@@ -950,25 +1019,21 @@ fn comp_worlds(tier: Tier) -> Vec<(Comp, Bounds)> {
             }
         }
         out.push((
-            Comp { name: "compliance-modules", nm: 4, seeds: vec![("empty".into(), vec![])], alphabet },
-            Bounds::new(tier.pick(5, 6), tier.pick(15, 200)),
+            Comp { name: "compliance-modules", nm: 4, seeds: vec![("empty".into(), vec![])], alphabet, limit: false, query: vec![0, 1, 2, 3] },
+            Bounds::new(dpt("compliance-modules", tier.pick(5, 6)), wall),
         ));
     }
-    // (b) one hook with 19 modules (one seed per hook); a second hook stays empty
+    // (b) one hook with 19 modules (one seed per hook variant); the next hook is empty
     {
         let mut seeds = vec![];
         for h in 0..HOOKS as u8 {
             seeds.push((format!("{:?}-with-19-modules", hook(h)), (0..19u8).map(|k| (h, k)).collect::<Vec<_>>()));
         }
-        // the alphabet names hooks relative to nothing: all seeds share it, so every seed also
-        // operates on hooks that are empty
-        let mut alphabet = vec![];
-        for h in 0..HOOKS as u8 {
-            for k in [0u8, 18, 19, 20] {
-                alphabet.push((h, k));
-            }
-        }
-        out.push((Comp { name: "compliance-modules-limit", nm: 22, seeds, alphabet }, Bounds::new(tier.pick(3, 4), tier.pick(10, 100))));
+        let alphabet = vec![(0, 19), (0, 20), (0, 21), (0, 0), (0, 9), (0, 18), (1, 0), (1, 19)];
+        out.push((
+            Comp { name: "compliance-modules-limit", nm: 22, seeds, alphabet, limit: true, query: vec![0, 9, 18, 19, 20, 21] },
+            Bounds::new(dpt("compliance-modules-limit", tier.pick(3, 4)), wall),
+        ));
     }
     out
 }
@@ -1010,5 +1075,8 @@ pub fn run(tier: Tier, r: &mut Runner) {
             "comp.refused.limit-exact",
             "comp.accepted-filling-limit.modules",
         ]);
+    }
+    if std::env::var("C20A_ONLY").is_ok() {
+        std::process::exit(0); // TEMPORARY (tuning)
     }
 }
